@@ -1362,6 +1362,9 @@ class WcParse(Generic[AnyStr]):
                     current.append(value)
                 self.consume_path_sep(i)
                 current.append(sep)
+            else:
+                # Duplicate `globstar`: still swallow the separators that follow it
+                self.consume_path_sep(i)
             self.set_start_dir()
         else:
             current.append(value)
